@@ -698,3 +698,29 @@ pub proof fn lemma_mask_filter_map<A, B>(s: Seq<A>, keep: Seq<bool>, g: spec_fn(
 pub open spec fn state_id_fn<'a>() -> spec_fn(&'a State) -> u32 {
     |s: &'a State| s.id
 }
+
+/// executable-content blocks as oracle calls
+pub open spec fn execs(s: Seq<u32>) -> Seq<Call>
+    decreases s.len(),
+{
+    if s.len() == 0 {
+        Seq::empty()
+    } else {
+        execs(s.drop_last()).push(Call::Exec(s.last()))
+    }
+}
+
+pub proof fn lemma_execs_add(a: Seq<u32>, b: Seq<u32>)
+    ensures
+        execs(a + b) == execs(a) + execs(b),
+    decreases b.len(),
+{
+    if b.len() == 0 {
+        assert(a + b == a);
+        assert(execs(a) + execs(b) == execs(a));
+    } else {
+        lemma_execs_add(a, b.drop_last());
+        assert((a + b).drop_last() == a + b.drop_last());
+        assert(execs(a) + execs(b.drop_last()).push(Call::Exec(b.last())) == (execs(a) + execs(b.drop_last())).push(Call::Exec(b.last())));
+    }
+}
